@@ -144,7 +144,7 @@ class DocGen:
             return self.ws() + n + self.ows('eq-space') + '=' + self.ows('eq-space') + "'" + v + "'"
         if k < 0.85:
             self.knobs.add('unquoted')
-            return self.ws() + n + '=' + ''.join(rng.choice('abc123-_.:%#/') for _ in range(rng.randint(1, 4)))
+            return self.ws() + n + '=' + (''.join(rng.choice('abc123-_.:%#/') for _ in range(rng.randint(1, 4))).rstrip('/') or 'a')
         self.knobs.add('valueless')
         return self.ws() + n
 
@@ -268,8 +268,6 @@ def slash_in_unquoted_value_explains(src):
         return False
     from chameleon import PageTemplate
     src2 = UNQ_SLASH.sub(lambda m: m.group(1) + m.group(2).replace('/', 'S'), src)
-    # keep a self-closing "/>" intact
-    src2 = src2.replace('S>', '/>') if src.count('/>') and src2.count('/>') < src.count('/>') else src2
     try:
         return PageTemplate(src2)() == expected_identity(src2)
     except Exception:
